@@ -356,6 +356,12 @@ def check(run, views, tier):
             done += 1
         if done:
             check_builder(run, F)
+            from ..engine import include
+            from . import c14
+            from .c12 import check_statics
+            include(run, c14, {cfg: {"ipp": F}}, tier, "path-term", "authority-term", "output-shape", "not-pass-through", "explicit-port-altered", "http_scheme",
+                    "unrecognised-port-test", "maps-configured-uri")
+            check_statics(run, F)
             # "a connection cut before the end of the attributes yields an error": the reader/parser error discipline of C07
             from .. import readerrules as rr
             rr.r_propagate(run, F)
